@@ -93,6 +93,14 @@ class Zuc:
         self._f(x0, x1, x2)          # output discarded
         self._lfsr(None)
 
+    @classmethod
+    def from_state(cls, lfsr, r1, r2):
+        """A generator in work mode at an explicit state (16 cells in [1, 2^31-1], R1, R2): no initialisation rounds."""
+        z = cls.__new__(cls)
+        z.s = list(lfsr)
+        z.r1, z.r2 = r1, r2
+        return z
+
     def _br(self):
         s = self.s
         return (((s[15] & 0x7FFF8000) << 1) | (s[14] & 0xFFFF),
@@ -135,6 +143,30 @@ class Zuc:
 
     def words(self, n):
         return [self.word() for _ in range(n)]
+
+
+P31 = M31          # the LFSR works in GF(2^31 - 1); the residue 0 is stored as 2^31 - 1
+
+
+def feedback(cells):
+    """residue (0..p-1) of the work-mode feedback 2^15 s15 + 2^17 s13 + 2^21 s10 + 2^20 s4 + (1 + 2^8) s0 for a 16-cell state"""
+    return ((cells[15] << 15) + (cells[13] << 17) + (cells[10] << 21) + (cells[4] << 20) + 257 * cells[0]) % P31
+
+
+def step_back(cells):
+    """the work-mode LFSR state one step earlier (the recurrence is invertible: s0 is solved from s16)"""
+    t = cells
+    rest = ((t[14] << 15) + (t[12] << 17) + (t[9] << 21) + (t[3] << 20)) % P31
+    x = ((t[15] - rest) * pow(257, -1, P31)) % P31
+    return [x or P31] + list(t[:15])
+
+
+def aim_feedback(cells, target):
+    """cells with s0 replaced so that the next feedback has the residue `target`"""
+    c = list(cells)
+    rest = ((c[15] << 15) + (c[13] << 17) + (c[10] << 21) + (c[4] << 20)) % P31
+    c[0] = (((target - rest) * pow(257, -1, P31)) % P31) or P31
+    return c
 
 
 def zuc128(key, iv):
@@ -206,10 +238,20 @@ def _bits_set(data, nbits):
             yield i
 
 
+def mac128_len(nbits):
+    return (nbits + 31) // 32 + 2
+
+
 def mac128(key, iv, data, nbits):
     """128-EIA3 core for an arbitrary IV: T = xor of z[i..i+31] over set bits i, xor z[LENGTH..], xor z[32(L-1)..]"""
-    L = (nbits + 31) // 32 + 2
-    z = int.from_bytes(b"".join(w.to_bytes(4, "big") for w in zuc128(key, iv).words(L)), "big")
+    return mac128_words(zuc128(key, iv).words(mac128_len(nbits)), data, nbits)
+
+
+def mac128_words(words, data, nbits):
+    """the same over an explicit key stream of mac128_len(nbits) words"""
+    L = mac128_len(nbits)
+    assert len(words) == L
+    z = int.from_bytes(b"".join(w.to_bytes(4, "big") for w in words), "big")
     tot = 32 * L
     t = 0
     for i in _bits_set(data, nbits):
@@ -225,11 +267,19 @@ def eia3(key, count, bearer, direction, data, nbits):
 
 # --- ZUC-256 MAC ------------------------------------------------------------
 
+def mac256_len(nbits, macbits):
+    return (nbits + 31) // 32 + 2 * (macbits // 32)
+
+
 def mac256(key, iv, data, nbits, macbits):
+    return mac256_words(zuc256(key, iv, macbits).words(mac256_len(nbits, macbits)), data, nbits, macbits)
+
+
+def mac256_words(words, data, nbits, macbits):
     assert macbits in (32, 64, 128)
-    n = macbits // 32
-    L = (nbits + 31) // 32 + 2 * n
-    z = int.from_bytes(b"".join(w.to_bytes(4, "big") for w in zuc256(key, iv, macbits).words(L)), "big")
+    L = mac256_len(nbits, macbits)
+    assert len(words) == L
+    z = int.from_bytes(b"".join(w.to_bytes(4, "big") for w in words), "big")
     tot = 32 * L
     mask = (1 << macbits) - 1
     t = z >> (tot - macbits)
